@@ -325,6 +325,85 @@ func vBuildYAMLMatchers(ms []vMatcher) []match.YAMLMatcher {
 	return res
 }
 
+// vWrittenForm: the JSON text sjson writes for a Go value (a dependency's behaviour, restated here so that the model is handed
+// a JSON text): strings are quoted raw unless they hold a control character, a quote, a backslash or a non-ASCII byte, in which
+// case - like every other value - they go through encoding/json
+func vWrittenForm(v any) []byte {
+	if s, ok := v.(string); ok {
+		plain := true
+		for i := 0; i < len(s); i++ {
+			if s[i] < ' ' || s[i] > 0x7e || s[i] == '"' || s[i] == '\\' {
+				plain = false
+				break
+			}
+		}
+		if plain {
+			return []byte(`"` + s + `"`)
+		}
+	}
+	b, err := json.Marshal(v)
+	if err != nil {
+		return []byte("!unmarshalable")
+	}
+	return b
+}
+
+// vJSONExtra encodes, for the model, the inputs of a JSON call: jdoc = the JSON text (text input as given, a Go value as
+// json.Marshal produced it), jms = the matcher specs, jopt = width:indent:sortkeys of the handle's DECLARED options.
+func vJSONExtra(j []byte, jok bool, doc []byte, o vOp, r *vRunner, effCfg *Config) string {
+	jdoc := doc
+	if jok {
+		jdoc = j
+	} else if o.Form != "string" && o.Form != "bytes" && o.Form != "" {
+		jdoc = []byte("!unmarshalable")
+	}
+	ms := []string{}
+	for _, m := range o.Matchers {
+		eom := "1"
+		if m.ErrOnMissing != nil && !*m.ErrOnMissing {
+			eom = "0"
+		}
+		ps := make([]string, len(m.Paths))
+		for i, p := range m.Paths {
+			ps[i] = vhex([]byte(p))
+		}
+		arg := "~"
+		switch m.Kind {
+		case "any":
+			if m.Placeholder != nil {
+				arg = vhex(vWrittenForm(vJSONValue(m.Placeholder, nil)))
+			}
+		case "type":
+			if m.Type == "uint64" {
+				return " jdoc=" + vhex(jdoc) + " jms=~ jopt=~" // Type[uint64] is outside the matcher model
+			}
+			arg = m.Type
+		case "custom":
+			if m.Err {
+				arg = "!err"
+			} else if m.Ret != nil {
+				arg = vhex(vWrittenForm(vJSONValue(m.Ret, "<custom>")))
+			} else {
+				arg = vhex([]byte(`"<custom>"`))
+			}
+		}
+		ms = append(ms, m.Kind+"|"+eom+"|"+arg+"|"+strings.Join(ps, "+"))
+	}
+	msS := "-"
+	if len(ms) > 0 {
+		msS = strings.Join(ms, ";")
+	}
+	width, indent, sortKeys := 0, " ", true
+	c := effCfg
+	if o.H > 0 && o.H <= len(r.fresh) {
+		c = r.fresh[o.H-1]()
+	}
+	if c.json != nil {
+		width, indent, sortKeys = c.json.Width, c.json.Indent, c.json.SortKeys
+	}
+	return fmt.Sprintf(" jdoc=%s jms=%s jopt=%d:%s:%s", vhex(jdoc), msS, width, vhex([]byte(indent)), vb(sortKeys))
+}
+
 // vResolveYAML: the YAML text a MatchYAML call is about, independent of the library's validateYAML
 func vResolveYAML(input any) ([]byte, error) {
 	var out any
@@ -512,6 +591,7 @@ func (r *vRunner) doMatch(o vOp) {
 
 	// ---- resolve what validation/matchers/formatting produce (on copies) ----
 	pre := ""
+	jsonExtra := ""
 	var call func()
 	switch o.API {
 	case "snap":
@@ -545,6 +625,8 @@ func (r *vRunner) doMatch(o vOp) {
 		// what the call must be judged against is computed WITHOUT the library's own validateJSON: text input is
 		// the text itself if it is valid JSON (encoding/json's strict validator), a Go value is json.Marshal(value)
 		j, jok := vResolveJSON(vInput(o.Form, doc))
+		// what the MODEL needs to compute the payload itself (driver/cmd_jpre.ml): the JSON text, the matcher specs, the options
+		jsonExtra = vJSONExtra(j, jok, doc, o, r, effCfg)
 		if !jok {
 			pre = "invalid"
 		} else {
@@ -620,7 +702,7 @@ func (r *vRunner) doMatch(o vOp) {
 		panic("api " + o.API)
 	}
 
-	fmt.Fprintf(r.w, "op match api=%s h=%d test=%s pre=%s\n", o.API, o.H, vhex([]byte(name)), pre)
+	fmt.Fprintf(r.w, "op match api=%s h=%d test=%s pre=%s%s\n", o.API, o.H, vhex([]byte(name)), pre, jsonExtra)
 
 	before := r.sb.scan()
 	ev0 := vEvents()
@@ -673,8 +755,12 @@ func (r *vRunner) doMatch(o vOp) {
 			etext = vhex([]byte(s))
 		}
 	}
-	fmt.Fprintf(r.w, "obs %d outcome=%s errors=%d logs=%s writes=%s line=%d etext=%s\n",
-		r.idx, outcome, len(errs), logsS, r.sb.writes(before, after), line, etext)
+	jpre := "*"
+	if jsonExtra != "" {
+		jpre = "1" // the model recomputes the payload from the document, the matchers and the options and must agree
+	}
+	fmt.Fprintf(r.w, "obs %d outcome=%s errors=%d logs=%s writes=%s line=%d etext=%s jpre=%s\n",
+		r.idx, outcome, len(errs), logsS, r.sb.writes(before, after), line, etext, jpre)
 	r.sb.pin()
 }
 
